@@ -433,15 +433,17 @@ def ballotScore (b : SBallot) (c : Cand) : Option Rat :=
   | some p => some p.2
   | none => none
 
-/-- `_find_best_votes` (cardinal.py L538-560): the ballots grading `cand` highest -/
-def findBestVotes (cv : WProfile) (cand : Cand) : Except Err (List SBallot) := do
-  -- bootstrap: min over ballots of the min grade on the ballot; `min()` of nothing raises
-  let mins ← cv.mapM (fun bw => listMin (bw.1.map (·.2)))
-  let start ← listMin mins
-  let r := cv.foldl (fun (acc : List SBallot × Rat) bw =>
+/-- `_find_best_votes` (cardinal.py): the ballots grading `cand` highest; `best_score = None` until the first ballot
+    that grades `cand` (fix PENDING: before, the scan was bootstrapped with the minimum over all grades of all ballots
+    and raised ValueError for an empty dict or an empty ballot).  Never raises. -/
+def findBestVotes (cv : WProfile) (cand : Cand) : Except Err (List SBallot) :=
+  let r := cv.foldl (fun (acc : List SBallot × Option Rat) bw =>
     match ballotScore bw.1 cand with
     | none => acc
-    | some s => if s > acc.2 then ([bw.1], s) else if s = acc.2 then (acc.1 ++ [bw.1], acc.2) else acc) ([], start)
+    | some s =>
+      match acc.2 with
+      | none => ([bw.1], some s)
+      | some b => if s > b then ([bw.1], some s) else if s = b then (acc.1 ++ [bw.1], some b) else acc) ([], none)
   pure r.1
 
 def weightOf (cv : WProfile) (b : SBallot) : Rat :=
@@ -495,7 +497,7 @@ def allocLoop (quota : Rat) : Nat → WProfile → Elected → Nat → Except Er
     if rem = 0 then .ok elected
     else
       match getNBest (sumScores cv) 1 with
-      | [] => .error (.other "IndexError")                         -- `get_n_best(...)[0]` of nothing
+      | [] => .error .votingSystemError       -- `if not agg_scores: raise VotingSystemError('ballots exhausted …')`
       | Slot.cand best :: _ => do
         let elected1 := bump elected (Key.cand best) 1
         let cv1 ← subtractVotes cv best (electedOf elected1 best) quota
@@ -529,8 +531,8 @@ def allocatedSelectorW (quota : Rat → Nat → Rat) (cv : WProfile) (n : Nat) :
   Each seat: the candidate with the strictly greatest weighted score sum `Σ grade · weight`; one quota of its strongest
   supporters is spent — grade group by grade group from the highest grade down, whole groups while they fit, the last one
   scaled uniformly —; then the winner's grades leave the ballots.  The definition is partial: it gives `none` as soon as
-  a round has no strict winner (the code's tie branches) or a ballot has run out (the code then raises, see the open
-  findings), so `(allocSpec …).isSome` is the decidable hypothesis "every round is tie-free and no ballot runs out". -/
+  a round has no strict winner — the code's tie branches, or nobody graded on any remaining ballot (the code then refuses
+  with VotingSystemError) —, so `(allocSpec …).isSome` is the decidable hypothesis "every round has a strict winner". -/
 
 /-- weighted score sum of a candidate over the remaining ballots -/
 def scoreSum (cv : WProfile) (c : Cand) : Rat :=
@@ -540,9 +542,6 @@ def scoreSum (cv : WProfile) (c : Cand) : Rat :=
 
 /-- the candidates graded on some remaining ballot -/
 def gradedCands (cv : WProfile) : List Cand := Appr.sortDedup (cv.flatMap (fun bw => bw.1.map (·.1)))
-
-/-- no ballot is left, or a ballot grades nobody any more -/
-def ballotRanOut (cv : WProfile) : Bool := cv.isEmpty || cv.any (fun bw => bw.1.isEmpty)
 
 /-- greatest entry of a list -/
 def listMax? : List Rat → Option Rat
@@ -561,7 +560,6 @@ def spendSpec : Nat → WProfile → Cand → Rat → Option WProfile
   | 0, _, _, _ => none
   | fuel + 1, cv, c, q =>
     if q ≤ 0 then some cv
-    else if ballotRanOut cv then none
     else match maxGrade? cv c with
       | none => some cv
       | some m =>
@@ -574,15 +572,13 @@ def spendSpec : Nat → WProfile → Cand → Rat → Option WProfile
 def allocSpecGo (q : Rat) : Nat → WProfile → List Cand → Option (List Cand)
   | 0, _, el => some el
   | rem + 1, cv, el =>
-    if ballotRanOut cv then none
-    else
-      let cands := gradedCands cv
-      match cands.filter (fun c => cands.all (fun d => decide (scoreSum cv d ≤ scoreSum cv c))) with
-      | [c] =>
-        match spendSpec (cv.length + 1) cv c q with
-        | some cv1 => allocSpecGo q rem (removeCand cv1 c) (el ++ [c])
-        | none => none
-      | _ => none
+    let cands := gradedCands cv
+    match cands.filter (fun c => cands.all (fun d => decide (scoreSum cv d ≤ scoreSum cv c))) with
+    | [c] =>
+      match spendSpec (cv.length + 1) cv c q with
+      | some cv1 => allocSpecGo q rem (removeCand cv1 c) (el ++ [c])
+      | none => none
+    | _ => none
 
 /-- allocated score (selector) by definition -/
 def allocSpec (quota : Rat → Nat → Rat) (votes : SProfile) (n : Nat) : Option (List Cand) :=
